@@ -117,6 +117,13 @@ theorem wf_of_sameMined {s s' : Store} (h : SameMined s s') (hn : NodupKeys s'.u
   rw [hb, ht]
   exact hw.listed k cv hf
 
+theorem sweep_uc (s : Store) (now : Nat) : (deleteExpiredLockedOutputs s now).unminedCredits = s.unminedCredits := by
+  unfold deleteExpiredLockedOutputs
+  generalize s.locked.filter _ = l
+  induction l generalizing s with
+  | nil => rfl
+  | cons x t ih => rw [List.foldl_cons, ih]; rfl
+
 /-! ### `addCredit` for a mined transaction -/
 
 theorem wf_addCredit_mined {s s' : Store} {rec : Tx} {bm : BlockMeta} {i : Nat} {chg : Bool} (hw : WF s)
